@@ -5,18 +5,7 @@ CONSTANTS
   Rule = "nested"
   Mutant = "none"
   Optimized = FALSE
-  VB = {"Fa"}
-  VB2 = {"none"}
-  VD = {"Fa", "Ca", "Fu"}
-  VO = {"none"}
-  VI = {"none", "Sa"}
-  VDeep = {"none"}
-  Aliases = {"none", "Aux", "DerivedAux", "Self"}
-  DCs = {"none"}
-  Orders = {"single", "memberclass", "membertwice"}
-  Confs = {"D", "N"}
-  Free = FALSE
-  MaxOps = 2
+  Groups <- DefaultGroups
   Emit = FALSE
 INVARIANT RouteEq
 INVARIANT ReturnsSelf
